@@ -284,10 +284,17 @@ func (root *Root) addExtends(extends ...*Extend) (err error) {
 			if cur == nil {
 				cur = root.dirs.get(x.Adds.Name())
 			}
-		} else if schema, _ := x.Adds.(*Schema); schema != nil && root.schema != nil {
-			// A nil root.schema must not be assigned, cur would then be an
-			// interface that is not nil holding a nil *Schema.
-			cur = root.schema
+		} else if _, ok := x.Adds.(*Schema); ok {
+			schema := root.schema
+			if schema == nil || schema.implied {
+				// An implied schema is extended. What the extension says
+				// takes the place of what was derived from the type names,
+				// assureSchema() derives the rest again after the
+				// extensions. A copy is extended, the previous schema is
+				// put back if the load fails.
+				schema = root.implySchema(false)
+			}
+			cur = schema
 		}
 		if cur == nil {
 			name := x.Adds.Name()
@@ -1155,29 +1162,49 @@ func (root *Root) AddEvent(id string, event interface{}) (cnt int, err error) {
 }
 
 func (root *Root) assureSchema() {
-	if root.schema != nil && !root.schema.implied {
-		return
-	}
 	// An implied schema is made again on every load so that a Query,
 	// Mutation or Subscription type that arrives in a later load becomes a
-	// root operation type just as if it had arrived in the first. A new
-	// Schema is made, the previous one is put back if the load fails.
-	schema := &Schema{Object: Object{fields: fieldList{dict: map[string]*FieldDef{}}}, implied: true}
+	// root operation type just as if it had arrived in the first.
+	if root.schema == nil || root.schema.implied {
+		root.implySchema(true)
+	}
+}
+
+// implySchema replaces the implied schema of the root, or the missing one, by
+// a new implied schema and returns it. The previous one is not touched, it
+// is put back if the load fails. What is not derived from the type names is
+// taken from the previous schema: the description and directives, the fields
+// given by extensions and the Go type registered for the schema. If derive
+// is true a field is then added for each of the Query, Mutation and
+// Subscription types that no extension gave.
+func (root *Root) implySchema(derive bool) *Schema {
+	schema := &Schema{
+		Object:  Object{fields: fieldList{dict: map[string]*FieldDef{}}},
+		implied: true,
+		derived: map[string]bool{},
+	}
 	if root.schema != nil {
 		schema.Base = root.schema.Base
 		for _, fd := range root.schema.fields.list {
-			_ = schema.fields.add(fd)
+			if !root.schema.derived[fd.N] {
+				_ = schema.fields.add(fd)
+			}
 		}
 		// A Go type registered for the schema stays registered.
 		root.schema.mu.Lock()
 		schema.meta = root.schema.meta
 		root.schema.mu.Unlock()
 	}
-	for _, cap := range []string{"Query", "Mutation", "Subscription"} {
-		name := strings.ToLower(cap)
-		if t := root.types.get(cap); t != nil && schema.fields.get(name) == nil {
-			_ = schema.fields.add(&FieldDef{Base: Base{N: name}, Type: t})
+	if derive {
+		for _, cap := range []string{"Query", "Mutation", "Subscription"} {
+			name := strings.ToLower(cap)
+			if t := root.types.get(cap); t != nil && schema.fields.get(name) == nil {
+				_ = schema.fields.add(&FieldDef{Base: Base{N: name}, Type: t})
+				schema.derived[name] = true
+			}
 		}
 	}
 	root.schema = schema
+
+	return schema
 }
